@@ -5,6 +5,8 @@ package main
 import (
 	"servitor/object"
 	"encoding/json"
+	"fmt"
+	"net"
 	"os"
 	"strconv"
 	"strings"
@@ -557,13 +559,20 @@ func init() {
 			return 999
 		}
 		gated := false
+		// a held page load: a listener that accepts and then stays silent (the TLS handshake never completes) until released
+		var hold *holdServer
+		defer func() {
+			if hold != nil {
+				hold.release()
+			}
+		}()
 		quiesce := func() ui.VerifSnapshot {
 			deadline := time.Now().Add(15 * time.Second)
 			stable := 0
 			var snap ui.VerifSnapshot
 			for time.Now().Before(deadline) {
 				snap = s.VerifSnap()
-				busy := snap.Mode == ui.VerifLoading || snap.Mode == ui.VerifOpening || (!gated && (snap.LoadingUp || snap.LoadingDown || s.VerifAnyLoading()))
+				busy := (hold == nil && snap.Mode == ui.VerifLoading) || snap.Mode == ui.VerifOpening || (!gated && (snap.LoadingUp || snap.LoadingDown || s.VerifAnyLoading()))
 				if !busy {
 					stable++
 					if stable >= 3 {
@@ -631,6 +640,16 @@ func init() {
 				w := r.next()
 				h := r.next()
 				s.SetWidthHeight(w, h)
+			case k == 262:
+				a, b, port := r.next(), r.next(), r.next()
+				if hold == nil {
+					hold = startHold(fmt.Sprintf("127.77.%d.%d:%d", a, b, port))
+				}
+			case k == 263:
+				if hold != nil {
+					hold.release()
+					hold = nil
+				}
 			case k == 260:
 				// the next key is observed twice: right after Update returns (the hook program it may have started is slow, so the
 				// "Opening ..." state is still on the screen) and again once everything has settled
@@ -666,4 +685,47 @@ func init() {
 		}
 		return out
 	})
+}
+
+// holdServer accepts connections and never answers them; release closes everything, which fails the pending fetches.
+type holdServer struct {
+	ln    net.Listener
+	mu    sync.Mutex
+	conns []net.Conn
+	done  bool
+}
+
+func startHold(addr string) *holdServer {
+	ln, err := net.Listen("tcp", addr)
+	if err != nil {
+		panic("hold listener: " + err.Error())
+	}
+	h := &holdServer{ln: ln}
+	go func() {
+		for {
+			c, err := ln.Accept()
+			if err != nil {
+				return
+			}
+			h.mu.Lock()
+			if h.done {
+				c.Close()
+			} else {
+				h.conns = append(h.conns, c)
+			}
+			h.mu.Unlock()
+		}
+	}()
+	return h
+}
+
+func (h *holdServer) release() {
+	h.mu.Lock()
+	h.done = true
+	for _, c := range h.conns {
+		c.Close()
+	}
+	h.conns = nil
+	h.mu.Unlock()
+	h.ln.Close()
 }
